@@ -44,6 +44,7 @@ func runC04(c *Ctx) {
 	c04KeyRules(c)
 	c05R3(c, "C04.R5")
 	c04R6(c)
+	c04Effects(c)
 	// what the observer applies: only entries newer than everything applied
 	// for that node, so a withdrawn endpoint cannot be resurrected by a late delta
 	if g := newGossipAnchors(c.P); g.ok {
@@ -660,6 +661,150 @@ func c04R6(c *Ctx) {
 			c.check(notLocal, "C04.R6", key, i.Pos(), "guarded by id != localID", "a remote mutator can modify the local node's entry in the routing table; facts "+factStrings(facts))
 		})
 	}
+}
+
+// c04Effects: a remote mutator that reports success has performed its write.
+func c04Effects(c *Ctx) {
+	p := c.P
+	a := newClusterAnchors(c)
+	if a == nil {
+		return
+	}
+	c.floor("C04.R10", 5)
+	type spec struct {
+		fn   string
+		what string
+		is   func(fn *ssa.Function, i ssa.Instruction) bool
+	}
+	param := func(fn *ssa.Function, name string) ssa.Value {
+		for _, pp := range fn.Params {
+			if pp.Name() == name {
+				return pp
+			}
+		}
+		return nil
+	}
+	specs := []spec{
+		{"State.UpdateRemoteStatus", "n.Status = status", func(fn *ssa.Function, i ssa.Instruction) bool {
+			st, ok := i.(*ssa.Store)
+			if !ok {
+				return false
+			}
+			_, ok = addrOfField(st.Addr, a.nStatus)
+			return ok && strip(st.Val) == param(fn, "status")
+		}},
+		{"State.RemoveNode", "delete(nodes, id)", func(fn *ssa.Function, i ssa.Instruction) bool {
+			cl, ok := i.(*ssa.Call)
+			if !ok {
+				return false
+			}
+			b, ok := cl.Call.Value.(*ssa.Builtin)
+			if !ok || b.Name() != "delete" {
+				return false
+			}
+			_, ok = loadedField(cl.Call.Args[0], a.nodesF)
+			return ok && strip(cl.Call.Args[1]) == param(fn, "id")
+		}},
+		{"State.updateRemoteEndpointLocked", "Endpoints[endpointID] = listeners", func(fn *ssa.Function, i ssa.Instruction) bool {
+			mu, ok := i.(*ssa.MapUpdate)
+			if !ok {
+				return false
+			}
+			_, ok = loadedField(mu.Map, a.nEndpts)
+			return ok && strip(mu.Key) == param(fn, "endpointID") && strip(mu.Value) == param(fn, "listeners")
+		}},
+		{"State.removeRemoteEndpointLocked", "delete(Endpoints, endpointID)", func(fn *ssa.Function, i ssa.Instruction) bool {
+			cl, ok := i.(*ssa.Call)
+			if !ok {
+				return false
+			}
+			b, ok := cl.Call.Value.(*ssa.Builtin)
+			if !ok || b.Name() != "delete" {
+				return false
+			}
+			_, ok = loadedField(cl.Call.Args[0], a.nEndpts)
+			return ok && strip(cl.Call.Args[1]) == param(fn, "endpointID")
+		}},
+	}
+	for _, sp := range specs {
+		fn := p.Func(clPkg, sp.fn)
+		if fn == nil {
+			c.fail("C04.R10", "anchor/"+sp.fn, token.NoPos, "mutator not found")
+			continue
+		}
+		c.analysed(fnName(fn))
+		fs := computeFacts(fn)
+		var writes []ssa.Instruction
+		allInstrs(fn, func(i ssa.Instruction) {
+			if sp.is(fn, i) {
+				writes = append(writes, i)
+			}
+		})
+		bad := ""
+		nTrue := 0
+		for _, r := range returnsOf(fn) {
+			rv := returnValues(r)
+			if b, ok := constBool(rv[0]); !ok || !b {
+				continue
+			}
+			nTrue++
+			if reachSkipping(fn, fs, r, writes, func(f Fact) bool {
+				return cmpFact(f, token.EQL, func(v ssa.Value) bool { _, ok := loadedField(v, a.nEndpts); return ok }, isNilConst)
+			}) {
+				bad = "success is reported at " + p.pos(r.Pos()) + " on a path that did not perform `" + sp.what + "`"
+			}
+		}
+		if len(writes) == 0 {
+			bad = "the write `" + sp.what + "` is missing"
+		}
+		c.check(bad == "" && nTrue > 0, "C04.R10", fnName(fn)+"/success-means-written", fn.Pos(), "`"+sp.what+"` happens on every path that reports success", bad+": the syncer believes the routing table followed gossip while it did not")
+	}
+	// lookups and sweeps over the routing table visit every node
+	loopsComplete(c, "C04.R11", methodsOf(p, clPkg, "State"), 3)
+	// AddNode stores the node under its id on the non-local path
+	if fn := p.Func(clPkg, "State.AddNode"); fn != nil {
+		stored := false
+		allInstrs(fn, func(i ssa.Instruction) {
+			if mu, ok := i.(*ssa.MapUpdate); ok {
+				if _, ok := loadedField(mu.Map, a.nodesF); ok {
+					if b, ok := loadedField(mu.Key, a.nID); ok && strip(b) == strip(mu.Value) {
+						stored = true
+					}
+				}
+			}
+		})
+		c.check(stored, "C04.R10", fnName(fn)+"/stores-under-own-id", fn.Pos(), "nodes[node.ID] = node", "AddNode does not store the node under its own id")
+	}
+}
+
+// reachSkipping: can the return be reached from the entry without executing
+// one of the writes and without taking an edge on which `excuse` holds?
+func reachSkipping(fn *ssa.Function, fs *Facts, r *ssa.Return, writes []ssa.Instruction, excuse func(Fact) bool) bool {
+	blocked := map[*ssa.BasicBlock]bool{}
+	for _, w := range writes {
+		blocked[w.Block()] = true
+	}
+	seen := map[*ssa.BasicBlock]bool{}
+	var rec func(b *ssa.BasicBlock) bool
+	rec = func(b *ssa.BasicBlock) bool {
+		if seen[b] || blocked[b] {
+			return false
+		}
+		seen[b] = true
+		if b == r.Block() {
+			return true
+		}
+		for _, s := range b.Succs {
+			if f, ok := edgeFact(b, s); ok && excuse(f) {
+				continue
+			}
+			if rec(s) {
+				return true
+			}
+		}
+		return false
+	}
+	return rec(fn.Blocks[0])
 }
 
 // callerFacts: for an unexported helper with static callers, the facts that
